@@ -19,8 +19,8 @@
 (***************************************************************************)
 EXTENDS BlockHandler, TraceLib
 
-VARIABLES l, cache, cfg, live, loose, kfs, bad, done, drift
-vars == << l, cache, cfg, live, loose, kfs, bad, done, drift >>
+VARIABLES l, cache, cfg, live, loose, kfs, kftotal, bad, done, drift
+vars == << l, cache, cfg, live, loose, kfs, kftotal, bad, done, drift >>
 
 (* ---- recorded values -> model values ---------------------------------------- *)
 OptMsg(j) == IF j.some THEN Some(MsgOf(j.v)) ELSE None
@@ -150,8 +150,10 @@ RespOk(e, pre, x, r) ==
                /\ r.resp.v.pay = Chunk(body, rb.v.num, sz)
                /\ rb.v.more = MoreAfter(body, rb.v.num, sz)
                /\ HasAllOptions(r.resp.v, app.v, { OPT_BLOCK2 })
-               /\ (r.hasPost => (r.post.cached.some <=> rb.v.more))
+               \* cached for follow-up blocks iff more remain; a reply that completes in this block leaves
+               \* the entry as it was (an unfinished earlier transfer stays until it expires, C20)
                /\ (r.hasPost /\ rb.v.more => r.post.cached = app)
+               /\ (r.hasPost /\ ~rb.v.more => (~r.post.cached.some \/ r.post.cached = pre.cached))
           ELSE \* left unfragmented: unchanged, fits, and nothing of the body is missing
                /\ r.resp = app /\ WireLen(app.v) <= cfg.M /\ off = 0
                /\ (r.hasPost => ~r.post.cached.some \/ r.post.cached = pre.cached)
@@ -208,7 +210,7 @@ Touch(k, entry, e, d1) ==
      ELSE cache[q]]
 
 Init == /\ l = 1 /\ cache = << >> /\ cfg = [M |-> 1152, ttl |-> 120000] /\ live = FALSE /\ loose = FALSE
-        /\ kfs = 0 /\ bad = << >> /\ done = FALSE /\ drift = 0
+        /\ kfs = 0 /\ kftotal = 0 /\ bad = << >> /\ done = FALSE /\ drift = 0
 
 RejectEv(props, why) == bad' = AddBad(bad, BadEntry(l, props, why))
 
@@ -226,10 +228,14 @@ StepCall(e) ==
        /\ UNCHANGED << drift, live >>
        /\ IF IsDupFinal(e, k) /\ x.out = OkR(FALSE)
           THEN \* C09: an identical final block repeated in a row must not reach the application again
-               /\ bad' = AddBad(bad, [i |-> l, props |-> {"C09"}, why |-> "duplicated final Block1 block passed to the application again",
-                                      sig |-> "dup-final-block-redelivered"])
-               /\ kfs' = kfs + 1
-          ELSE /\ kfs' = kfs
+               \* occurrences of a known finding are counted; only the first few are listed, so that
+               \* they never crowd other rejections out of the (capped) list
+               /\ bad' = IF kftotal < 3
+                         THEN Append(bad, [i |-> l, props |-> {"C09"}, why |-> "duplicated final Block1 block passed to the application again",
+                                           sig |-> "dup-final-block-redelivered"])
+                         ELSE bad
+               /\ kfs' = kfs + 1 /\ kftotal' = kftotal + 1
+          ELSE /\ kfs' = kfs /\ UNCHANGED kftotal
                /\ IF OthersOk(e, k) THEN UNCHANGED bad
                   ELSE RejectEv({"C12", "C20"}, "state of another key changed, or an entry was kept/purged against the configured expiry")
   ELSE LET wrong == { p \in WrongLiveness(k, e) \ pres : Exact(Expected(e, p), r) }
@@ -237,7 +243,7 @@ StepCall(e) ==
            x == Expected(e, p)
            v == UNION { Violated(e, q, Expected(e, q), r) : q \in pres }
            vAll == IF \E q \in pres : Violated(e, q, Expected(e, q), r) = {} THEN {} ELSE v IN
-       /\ kfs' = kfs
+       /\ kfs' = kfs /\ UNCHANGED kftotal
        /\ IF wrong # {}
           THEN \* behaves as on the forbidden pre-state: a C20 symptom, and whatever the pinned predicates say
                /\ RejectEv({"C20"} \cup vAll, "the call behaved as if the entry had expired / been kept against the configured expiry, or lost its state")
@@ -268,17 +274,18 @@ Step ==
   /\ LET e == Rec[l] IN
      IF e.op = "reset"
      THEN /\ cache' = << >> /\ cfg' = [M |-> e.M, ttl |-> e.ttl] /\ live' = TRUE /\ loose' = FALSE /\ kfs' = 0
-          /\ UNCHANGED << bad, drift >>
-     ELSE IF e.op = "sleep" THEN UNCHANGED << cache, cfg, live, loose, kfs, bad, drift >>
-     ELSE IF e.op = "unlogged" THEN loose' = TRUE /\ UNCHANGED << cache, cfg, live, kfs, bad, drift >>
+          /\ UNCHANGED << bad, drift, kftotal >>
+     ELSE IF e.op = "sleep" THEN UNCHANGED << cache, cfg, live, loose, kfs, kftotal, bad, drift >>
+     ELSE IF e.op = "unlogged" THEN loose' = TRUE /\ UNCHANGED << cache, cfg, live, kfs, kftotal, bad, drift >>
      ELSE IF e.op \in {"ireq", "iresp"}
      THEN /\ UNCHANGED << cfg, loose >>
-          /\ IF live THEN StepCall(e) ELSE UNCHANGED << cache, live, kfs, bad, drift >>
-     ELSE /\ UNCHANGED << cache, cfg, live, loose, kfs, drift >>
+          /\ IF live THEN StepCall(e) ELSE UNCHANGED << cache, live, kfs, kftotal, bad, drift >>
+     ELSE /\ UNCHANGED << cache, cfg, live, loose, kfs, kftotal, drift >>
           /\ IF live THEN StepSummary(e) ELSE UNCHANGED bad
 
-Finish == l = NRec + 1 /\ ~done /\ done' = TRUE /\ UNCHANGED << l, cache, cfg, live, loose, kfs, bad, drift >>
-          /\ WriteResult(bad, [episodes |-> Cardinality({i \in 1 .. NRec : Rec[i].op = "reset"}), drift |-> drift])
+Finish == l = NRec + 1 /\ ~done /\ done' = TRUE /\ UNCHANGED << l, cache, cfg, live, loose, kfs, kftotal, bad, drift >>
+          /\ WriteResult(bad, [episodes |-> Cardinality({i \in 1 .. NRec : Rec[i].op = "reset"}), drift |-> drift,
+                               known |-> [sig |-> "dup-final-block-redelivered", n |-> kftotal]])
 
 Next == Step \/ Finish
 Spec == Init /\ [][Next]_vars
